@@ -311,6 +311,11 @@ func drawIDs(t *rapid.T, n int) []string {
 }
 
 func drawCount(t *rapid.T, min int) int {
+	if rapid.IntRange(0, 79).Draw(t, "huge") == 41 {
+		// long-lived collections: thousands of records, around the sizes where buffers and histories get trimmed
+		lib.Ev.Class("collection of thousands of records (2048-9000)")
+		return rapid.SampledFrom([]int{2048, 4095, 4096, 4097, 4200, 4700, 8192, 9000}).Draw(t, "nhuge")
+	}
 	if rapid.IntRange(0, 24).Draw(t, "big") == 0 {
 		return rapid.SampledFrom([]int{999, 1000, 1001}).Draw(t, "nbig")
 	}
